@@ -234,3 +234,122 @@ func isRefType(t types.Type) bool {
 	}
 	return false
 }
+
+// ScratchReuse is a slice that is truncated in place (`x = x[:0]`) although its
+// value escapes elsewhere (stored into a literal, a field, another variable,
+// passed on): the holder of the old value sees the new elements.
+type ScratchReuse struct {
+	Fn     *Fn
+	Reset  ast.Node // the x = x[:0] statement
+	Escape ast.Node // a use through which the old backing array stays referenced
+}
+
+// ScratchReuses finds in-place truncations of slices that escape, in the given packages.
+func (p *Prog) ScratchReuses(pkgs ...string) []ScratchReuse {
+	var out []ScratchReuse
+	type reset struct {
+		f    *Fn
+		stmt *ast.AssignStmt
+		lhs  ast.Expr
+	}
+	var resets []reset
+	for _, pk := range pkgs {
+		for _, f := range p.FuncsIn(pk) {
+			ast.Inspect(f.Body, func(n ast.Node) bool {
+				as, ok := n.(*ast.AssignStmt)
+				if !ok || len(as.Lhs) != len(as.Rhs) {
+					return true
+				}
+				for i := range as.Lhs {
+					sl, ok := ast.Unparen(as.Rhs[i]).(*ast.SliceExpr)
+					if !ok || sl.Low != nil || sl.High == nil || !f.IsConstInt(sl.High, 0) {
+						continue
+					}
+					if f.SameExpr(as.Lhs[i], sl.X) {
+						resets = append(resets, reset{f, as, as.Lhs[i]})
+					}
+				}
+				return true
+			})
+		}
+	}
+	for _, rs := range resets {
+		obj := rs.f.ObjOf(rs.lhs)
+		if obj == nil {
+			continue
+		}
+		v, _ := obj.(*types.Var)
+		scope := []*Fn{rs.f}
+		if v != nil && v.IsField() {
+			scope = nil
+			for _, pk := range pkgs {
+				scope = append(scope, p.FuncsIn(pk)...)
+			}
+		}
+		for _, f := range scope {
+			var esc ast.Node
+			ast.Inspect(f.Body, func(n ast.Node) bool {
+				if esc != nil {
+					return false
+				}
+				e, ok := n.(ast.Expr)
+				if !ok || f.ObjOf(e) != obj {
+					return true
+				}
+				if _, isSelPart := p.parents[e].(*ast.SelectorExpr); isSelPart && p.parents[e].(*ast.SelectorExpr).Sel == e {
+					return true // visited through the selector expression
+				}
+				// classify the use through its parents (conversions are transparent)
+				cur := ast.Node(e)
+				for {
+					par := p.parents[cur]
+					switch x := par.(type) {
+					case *ast.ParenExpr:
+						cur = par
+						continue
+					case *ast.CallExpr:
+						if tv, ok := f.Info().Types[x.Fun]; ok && tv.IsType() {
+							cur = par // conversion
+							continue
+						}
+						if id, ok := x.Fun.(*ast.Ident); ok {
+							switch id.Name {
+							case "len", "cap":
+								return true
+							case "append":
+								if len(x.Args) > 0 && x.Args[0] == cur {
+									// x = append(x, ...) keeps ownership; anything else hands the slice on
+									if as, ok := p.parents[par].(*ast.AssignStmt); ok && len(as.Lhs) == 1 && f.ObjOf(as.Lhs[0]) == obj {
+										return true
+									}
+								}
+							case "copy":
+								return true
+							}
+						}
+						esc = par // passed to a function
+						return false
+					case *ast.KeyValueExpr, *ast.CompositeLit, *ast.ReturnStmt:
+						esc = par
+						return false
+					case *ast.AssignStmt:
+						for i, r := range x.Rhs {
+							if r == cur && i < len(x.Lhs) && f.ObjOf(x.Lhs[i]) != obj {
+								esc = par
+							}
+						}
+						return false
+					case *ast.IndexExpr, *ast.SliceExpr, *ast.RangeStmt:
+						return true
+					}
+					return true
+				}
+			})
+			if esc != nil {
+				out = append(out, ScratchReuse{rs.f, rs.stmt, esc})
+				break
+			}
+		}
+	}
+	return out
+}
